@@ -1,7 +1,6 @@
 package chain
 
 import (
-	"sort"
 	"bytes"
 	"compress/gzip"
 	"encoding/base64"
@@ -9,6 +8,7 @@ import (
 	"fmt"
 	"math/big"
 	"math/rand/v2"
+	"sort"
 
 	"github.com/NethermindEth/juno/blockchain/networks"
 	"github.com/NethermindEth/juno/core"
